@@ -157,10 +157,10 @@ symbol_regex = r"""(?<!\S)
                     (y|n|\"y\"|\"n\")(?!\S)  # y, n, "y", "n" symbols
                     |(true|True|false|False|yes|Yes|no|No)(?!\S)  # invalid bool literals - will sanitize later
                     |0[x|X][\da-fA-F]+  # hexnums: 0x1234, 0X1234ABCD
-                    |\d+(\.\d+){1,2} # versions: 4.4, 5.3.1 (versions without dots are handled by the "numbers" below)
+                    |\d+(\.\d+){1,2}(?![eE][+-]?\d) # versions: 4.4, 5.3.1 (versions without dots are handled by the "numbers" below)
                     |-?\d+\.\d+(?:[eE][+-]?\d+)?  # floats: 1.5, -3.14, 1.5e-6, -2.5E10
                     |-?\d+[eE][+-]?\d+  # floats with exponent but no decimal: 1e-6, -2E10
-                    |-?\d+   # numbers: 1234, -1234
+                    |-?\d+(?![A-Za-z_])   # numbers: 1234, -1234 (not the start of a name such as 64BIT)
                     |[A-Za-z\d_]+  # variables: FOO, BAR_BAR, ENABLE_ESP64
                     |'(?:\\.|[^'\\])*'  # strings: 'a string', with \\. backslash escapes
                     |\"(?:\\.|[^\"\\])*\" # strings: "hello world", "", with \\. backslash escapes
